@@ -280,6 +280,4 @@ func printResult(r *HarnessResult, verbose bool) {
 	}
 }
 
-func cmdCheck(argv []string) int    { fmt.Println("check: not yet implemented"); return 2 }
-func cmdReplay(argv []string) int   { fmt.Println("replay: not yet implemented"); return 2 }
 func cmdSelftest(argv []string) int { fmt.Println("selftest: not yet implemented"); return 2 }
